@@ -69,7 +69,11 @@ def finish(prop, tier, REG, results, lemma_results, wall, write_evidence=True):
     known = load_known()
     crashes = [r for r in results if r.get("crash")]
     agg = summarize(results)
+    errors_pre = []
     for lr in lemma_results:
+        if lr["status"] in ("error",) or (lr.get("backend") == "engine-F" and lr["status"] == "unknown"):
+            errors_pre.append("%s: %s" % (lr["name"], lr.get("detail", "")))
+            continue
         agg[lr["name"]] = {"name": lr["name"], "key": "lemma", "contract": lr["name"], "kind": "lemma", "mode": "prove",
                            "vcs": 1, "proved": 1 if lr["status"] == "proved" else 0,
                            "failed": 1 if lr["status"] == "failed" else 0,
@@ -78,7 +82,7 @@ def finish(prop, tier, REG, results, lemma_results, wall, write_evidence=True):
                            "witness": {"status": lr["status"], "detail": lr.get("detail", ""), "model": lr.get("model"),
                                        "inputs": lr.get("inputs")} if lr["status"] != "proved" else None,
                            "replay": lr.get("replay")}
-    errors = []
+    errors = list(errors_pre)
     for r in results:
         for e in r.get("errors", []):
             errors.append("%s: %s" % (r["short"], e))
@@ -174,7 +178,7 @@ def finish(prop, tier, REG, results, lemma_results, wall, write_evidence=True):
                      "vcs": len(r["obligations"]), "errors": r.get("errors", []),
                      "bounded_loops": r.get("bounded_loops", []), "bounds_hit": r.get("bounds_hit", [])}
                     for r in sorted(results, key=lambda r: r["short"])],
-                "lemmas": [{"name": l["name"], "status": l["status"], "seconds": l["seconds"]} for l in lemma_results],
+                "lemmas": [{"name": l["name"], "status": l["status"], "seconds": l["seconds"], "backend": l.get("backend", "z3")} for l in lemma_results],
                 "bounded": bounded,
                 "known_findings": [{"obligation": n, "text": k.get("text", "")} for k, n in known_hits],
                 "undecided": errors,
